@@ -39,6 +39,7 @@ type Result struct {
 	Sample     any            `json:"sample,omitempty"`
 	WallMS     int64          `json:"wall_ms"`
 	Dump       string         `json:"dump,omitempty"`
+	Dump2      string         `json:"dump2,omitempty"`
 }
 
 // Family runs one scenario in a world.
